@@ -631,7 +631,9 @@ func (dsc *dataStoreCommand) bitfieldWrite(keyName string, ops []*bitfieldOp) (o
 						newValue = signExtend(newValue, bits)
 					}
 				case OFLOW_SAT:
-					newValue = saturateValue(op.signed, newValue, bits)
+					// the operand tells which limit was crossed; the sign of the sum
+					// does not, as the sum may have wrapped around the int64 range
+					newValue = saturateValue(op.signed, op.value, bits)
 				case OFLOW_FAIL:
 					results = append(results, nil)
 					continue
